@@ -654,7 +654,7 @@ class GetNodeSnapshots(_OverDegree):
         r = outcome[1]
         if r.kind == 'list' and not r.items and not r.esc:
             cnt = z3.K(Int, IntV(0))
-        elif r.kind == 'intbag':
+        elif r.kind == 'intbag' and not getattr(r, 'tainted', False):
             cnt = r.cnt
         else:
             return self.shape(ctx, 'C02.get_node_snapshots.returns_a_list_of_ids', tags=T, note='result kind %s' % r.kind)
